@@ -64,7 +64,7 @@ pub fn run(ctx: &Ctx) -> Outcome {
         let tc = ThreadsCfg { base_depth: ctx.tier.pick(2, 3), preemption_bound: ctx.tier.pick(Some(2), Some(3)), max_runs_per_case: ctx.tier.pick(2_000, 100_000), with_suffix: true, triples: true, doubles: true, budget_share: 0.3 };
         explore_threads(ctx, &rx(ctx.tier, 4, vec![MSS, 1], 0), &tc, &mut out);
         let tc2 = ThreadsCfg { base_depth: ctx.tier.pick(1, 2), with_suffix: false, ..tc };
-        explore_threads(ctx, &close(ctx.tier, 0), &tc2, &mut out);
+        explore_threads(ctx, &close_plain(ctx.tier, 0), &tc2, &mut out);
         // writer || connection while the TX ring grows (the bytes that reach the wire afterwards)
         let tc3 = ThreadsCfg { base_depth: ctx.tier.pick(1, 2), with_suffix: true, triples: false, ..tc };
         explore_threads(ctx, &tx_grow(ctx.tier, 0), &tc3, &mut out);
